@@ -28,6 +28,33 @@ import (
 
 const maxDepth = 40
 
+// substStack: while a callee is examined on behalf of one call site, its
+// parameters render as the terms of that site's arguments (PushSubst), so that
+// a gate written in the caller's terms is recognised inside a helper.
+var substStack []map[*ssa.Parameter]string
+
+// PushSubst renders the arguments of call in the current context and makes
+// callee's parameters stand for them until PopSubst.  It returns a signature
+// of the substitution (for memo keys).
+func PushSubst(callee *ssa.Function, call *ssa.CallCommon) string {
+	m := map[*ssa.Parameter]string{}
+	var sig []string
+	if !call.IsInvoke() && len(call.Args) == len(callee.Params) {
+		for i, p := range callee.Params {
+			t := Of(call.Args[i])
+			m[p] = t
+			sig = append(sig, t)
+		}
+	}
+	substStack = append(substStack, m)
+	return strings.Join(sig, ";")
+}
+
+func PopSubst() { substStack = substStack[:len(substStack)-1] }
+
+// SubstDepth is the number of active substitution frames.
+func SubstDepth() int { return len(substStack) }
+
 // Of renders the provenance term of v.
 func Of(v ssa.Value) string {
 	return render(v, 0, map[ssa.Value]bool{})
@@ -127,6 +154,11 @@ func render(v ssa.Value, d int, onstack map[ssa.Value]bool) string {
 
 	switch x := v.(type) {
 	case *ssa.Parameter:
+		if n := len(substStack); n > 0 {
+			if t, ok := substStack[n-1][x]; ok {
+				return t
+			}
+		}
 		return "param:" + CanonParam(x.Parent(), x.Name())
 	case *ssa.FreeVar:
 		return "free:" + CanonFree(x.Parent(), x.Name())
@@ -198,6 +230,27 @@ func render(v ssa.Value, d int, onstack map[ssa.Value]bool) string {
 			return "^" + r(x.X)
 		}
 		return x.Op.String() + r(x.X)
+	case *ssa.Phi:
+		// a hand-written index loop over a slice (for i := 0; i < len(x); i++)
+		// is the same thing as a range loop
+		if isIndexLoopVar(x) {
+			return "rangeidx"
+		}
+		var parts []string
+		seen := map[string]bool{}
+		for _, e := range x.Edges {
+			s := r(e)
+			if seen[s] {
+				continue
+			}
+			seen[s] = true
+			parts = append(parts, s)
+		}
+		sort.Strings(parts)
+		if len(parts) == 1 {
+			return parts[0]
+		}
+		return "phi(" + strings.Join(parts, "|") + ")"
 	case *ssa.BinOp:
 		// the induction variable of a range-over-slice loop
 		if ph, ok := x.X.(*ssa.Phi); ok && ph.Comment == "rangeindex" && x.Op == token.ADD {
@@ -254,22 +307,6 @@ func render(v ssa.Value, d int, onstack map[ssa.Value]bool) string {
 		return r(x.X)
 	case *ssa.TypeAssert:
 		return "assert:" + typeName(x.AssertedType) + "(" + r(x.X) + ")"
-	case *ssa.Phi:
-		var parts []string
-		seen := map[string]bool{}
-		for _, e := range x.Edges {
-			s := r(e)
-			if seen[s] {
-				continue
-			}
-			seen[s] = true
-			parts = append(parts, s)
-		}
-		sort.Strings(parts)
-		if len(parts) == 1 {
-			return parts[0]
-		}
-		return "phi(" + strings.Join(parts, "|") + ")"
 	case *ssa.MakeSlice:
 		return "make(" + typeName(x.Type()) + "," + r(x.Len) + ")"
 	case *ssa.MakeMap:
@@ -327,8 +364,18 @@ func deref(t types.Type) types.Type {
 }
 
 // Match reports whether term matches pattern.  '*' in the pattern matches any
-// (possibly empty) substring; everything else is literal.
+// (possibly empty) substring; everything else is literal.  Alternatives are
+// separated by " || ".
 func Match(pattern, term string) bool {
+	// " || " separates alternative patterns (equivalent idioms)
+	if strings.Contains(pattern, " || ") {
+		for _, alt := range strings.Split(pattern, " || ") {
+			if Match(alt, term) {
+				return true
+			}
+		}
+		return false
+	}
 	if !strings.Contains(pattern, "*") {
 		return pattern == term
 	}
@@ -356,4 +403,44 @@ func allocName(x *ssa.Alloc) string {
 		return "alloc:" + typeName(deref(x.Type()))
 	}
 	return "local:" + CanonLocal(x.Parent(), c)
+}
+
+// isIndexLoopVar: p is the counter of "for i := 0; i < len(x); i++": a phi of
+// the constant 0 and of itself plus 1, compared "< len(...)" by the branch
+// that ends its block.
+func isIndexLoopVar(p *ssa.Phi) bool {
+	if len(p.Edges) != 2 {
+		return false
+	}
+	zero, step := false, false
+	for _, e := range p.Edges {
+		switch x := e.(type) {
+		case *ssa.Const:
+			if x.Value != nil && x.Value.Kind() == constant.Int && constant.Sign(x.Value) == 0 {
+				zero = true
+			}
+		case *ssa.BinOp:
+			if k, ok := x.Y.(*ssa.Const); ok && x.Op == token.ADD && x.X == p && k.Value != nil && k.Value.Kind() == constant.Int && k.Value.ExactString() == "1" {
+				step = true
+			}
+		}
+	}
+	if !zero || !step {
+		return false
+	}
+	b := p.Block()
+	ifi, ok := b.Instrs[len(b.Instrs)-1].(*ssa.If)
+	if !ok {
+		return false
+	}
+	c, ok := ifi.Cond.(*ssa.BinOp)
+	if !ok || c.Op != token.LSS || c.X != p {
+		return false
+	}
+	if call, ok := c.Y.(*ssa.Call); ok {
+		if bi, ok := call.Call.Value.(*ssa.Builtin); ok && bi.Name() == "len" {
+			return true
+		}
+	}
+	return false
 }
